@@ -576,6 +576,31 @@ class Skel:
         out += self.ops(tail)
         return out
 
+    def combinator(self, e, inner):
+        """Option / Result combinators are two-armed matches on the receiver (arms in variant order: Err / None first, then Ok / Some):
+        `r.map_err(|_| E)` / `o.ok_or_else(|| E)` / `o.ok_or(E)` / `r.or_else(|_| E)` / `o.unwrap_or_else(|| E)` = [E, ·];
+        `o.map_or(D, |v| F)` / `map_or_else(|| D, |v| F)` = [D, F]; `o.map(|v| F)` / `and_then(|v| F)` on an Option / Result = [·, F].
+        Returns the ops (inner + the match, or inner alone when no arm does anything) or None when `e` is no such combinator."""
+        m = e["method"]
+        args = e["args"]
+        rty = (strip(e["recv"]).get("ty") or "")
+        optres = rty.lstrip("&").startswith(("std::option::Option<", "std::result::Result<", "core::option::Option<", "core::result::Result<"))
+
+        def body(a):
+            a = strip(a)
+            return self.norm(self.ops(a["body"])) if a.get("k") == "Closure" else self.norm(self.ops(a))
+        if m in ("map_err", "or_else", "ok_or_else", "unwrap_or_else") and len(args) == 1 and strip(args[0]).get("k") == "Closure":
+            arms = (body(args[0]), ())
+        elif m in ("ok_or", "unwrap_or") and len(args) == 1 and optres:
+            arms = (body(args[0]), ())
+        elif m in ("map_or", "map_or_else") and len(args) == 2 and optres:
+            arms = (body(args[0]), body(args[1]))
+        elif m in ("map", "and_then") and len(args) == 1 and optres and strip(args[0]).get("k") == "Closure":
+            arms = ((), body(args[0]))
+        else:
+            return None
+        return inner + ([("match", arms)] if any(arms) else [])
+
     def ops(self, e):
         if e is None:
             return []
@@ -592,10 +617,9 @@ class Skel:
             rp = field_path(recv)
             m = e["method"]
             inner = self.ops(e["recv"])
-            if m in ("map_err", "or_else", "ok_or_else") and len(e["args"]) == 1 and strip(e["args"][0]).get("k") == "Closure":
-                # `r.map_err(|_| E)` is `match r { Err(_) => Err(E), Ok(v) => Ok(v) }` (arms in variant order: Err / None first)
-                c_ = self.norm(self.ops(strip(e["args"][0])["body"]))
-                return inner + ([("match", (c_, ()))] if c_ else [])
+            cb_ = self.combinator(e, inner)
+            if cb_ is not None:
+                return cb_
             for a in e["args"]:
                 if m in ITER_LOOPS and strip(a).get("k") == "Closure":
                     # `it.for_each(|x| B)` is `for x in it { B }`: the closure an iterator adaptor runs per element is a loop body
